@@ -501,9 +501,16 @@ func (f *frame) sliceOp(st *State, x *ssa.Slice) Val {
 	}
 	limit := s.Cap
 	what := "slice bounds out of range (cap)"
-	if s.R.strict || s.Str {
+	if s.Str {
 		limit = s.Len
-		what = "slice bounds out of range: re-slicing beyond len of input/global/pooled memory"
+		what = "slice bounds out of range (string)"
+	}
+	if s.R.strict && !s.Str && ex.mode.Safety {
+		// the strict rule, as an obligation of its own kind: memory between len and cap of a caller's,
+		// global or pooled slice holds bytes of earlier uses; extending a view into it is not a panic in
+		// Go but lets a detection see (or overwrite) data that is not its input
+		f.ob(st, f.ord("slice.stale", x), x.Pos(), tLe(hi, s.Len), "re-slicing beyond len of input/global/pooled memory (stale contents of earlier uses)")
+		st.assume(tLe(hi, s.Len))
 	}
 	goal := tAnd(tLe("0", lo), tLe(lo, hi), tLe(hi, limit))
 	var mx T
